@@ -499,6 +499,59 @@ def queue_churn(H, buf, live_n, ops, seed):
                         'drain after churn: %r, required %r' % (got[:8], want[:8]), snip)
 
 
+def queue_mass_remove(H, buf, n_tasks, keep, seed):
+    """thousands of tasks, most of them removed in an order unrelated to priority, a few late arrivals, then a full drain:
+    the regime in which any bulk clean-up of removed entries inside remove() would act"""
+    BarrelList._size_factor = REAL_SF
+    qs = [c() for c in CLASSES]
+    M = RefPriorityQueue()
+    rnd = lcg(seed + 41)
+    alive = [True, True]
+    wit = dict(tasks=n_tasks, removed=n_tasks - keep, kind='mass removal')
+    snip = (HDR + 'import random\nrnd = random.Random(5)\nfor Q in (HeapPriorityQueue, SortedPriorityQueue):\n    q = Q(); ref = {}\n'
+            '    for i in range(%d):\n        p = rnd.randrange(60); q.add(i, p); ref[i] = (-p, i)\n'
+            '    vs = list(ref); rnd.shuffle(vs)\n    for t in vs[:%d]:\n        q.remove(t); del ref[t]\n'
+            '    out = [q.pop() for _ in range(len(ref))]\n    assert out == sorted(ref, key=ref.get), (Q.__name__, out[:10])\n'
+            % (n_tasks, n_tasks - keep))
+
+    def both(name, args, exp, i):
+        for k, q in enumerate(qs):
+            if alive[k]:
+                o = outcome((q, name), args)
+                if (exp == 'noraise' and o[0] != 'ret') or (exp != 'noraise' and o != exp):
+                    alive[k] = False
+                    buf.add('highest_priority_fifo', '%s.%s' % (CLASSES[k].__name__, name), {'remove', 'tombstones'}, wit,
+                            '%s%r -> %r, required %r (live %d, after %d operations)' % (name, args[:1], o, exp, len(M), i), snip)
+    prios = [None, 0, 1, 2.5, 7, 40, 41, 99, 1000, -3]
+    for t in range(n_tasks):
+        pr = prios[next(rnd) % len(prios)]
+        M.add(t, pr)
+        both('add', (t, pr), 'noraise', t)
+    victims = list(range(n_tasks))
+    for j in range(n_tasks - 1, 0, -1):                     # Fisher-Yates with the harness generator
+        r = next(rnd) % (j + 1)
+        victims[j], victims[r] = victims[r], victims[j]
+    for i, t in enumerate(victims[:n_tasks - keep]):
+        M.remove(t)
+        both('remove', (t,), 'noraise', i)
+        if i % 211 == 0:
+            both('peek', (), ('ret', M.first()), i)
+            H.ev(key=('massrm', n_tasks, i), nontrivial=True, part='queue_mass_remove')
+    for i in range(40):
+        t, pr = n_tasks + i, prios[next(rnd) % len(prios)]
+        M.add(t, pr)
+        both('add', (t, pr), 'noraise', i)
+    order = M.order()
+    for k, q in enumerate(qs):
+        if alive[k]:
+            got = [outcome((q, 'pop')) for _ in order]
+            want = [('ret', t) for t in order]
+            if got != want or outcome(len, (q,)) != ('ret', 0):
+                bad = next((j for j, (a, b) in enumerate(zip(got, want)) if a != b), len(want))
+                buf.add('highest_priority_fifo', '%s.pop' % CLASSES[k].__name__, {'remove', 'tombstones'}, wit,
+                        'drain after mass removal differs at pop %d: %r, required %r' % (bad, got[bad:bad + 4], want[bad:bad + 4]), snip)
+
+
 def run():
     H = Harness('C10',
                 rule='a case is one (size factor, history) on both queue classes, judged at its last call and then '
@@ -513,7 +566,8 @@ def run():
                           'queue call profile (insert 0..len, pop(0)) and beyond it (observations only): breadth-first '
                           'over all insert/pop/append instances from every distinct sub-list shape, factor 0.5/1/2, '
                           '<= 7 items, depth <= 9; real factor: 23 500 end inserts + 3 000 mixed inserts/pop(0), and one '
-                          '23 500-task queue run (adds, 300 removes/re-adds, pops, full drain)',
+                          '23 500-task queue run (adds, 300 removes/re-adds, pops, full drain); re-add churn (8/40/200 live tasks x 2 500 re-adds); '
+                          'mass removal (4 000 tasks, 3 400 removed in random order, 40 late arrivals, full drain)',
                     thorough='as quick with histories <= 5 (full priorities) / <= 6 (reduced), factor 2 added, '
                              'BarrelList <= 9-12 items depth <= 11-14 (factors 0.5/1/2/3), real factor 45 000 end '
                              'inserts + 20 000 mixed ops, 45 000-task queue run, seeded extra 26 000-task run'))
@@ -528,6 +582,9 @@ def run():
         queue_large(H, buf, 45000 if H.thorough else 23500, H.seed)
         for live_n in (8, 40, 200):
             queue_churn(H, buf, live_n, 2500, H.seed)
+        queue_mass_remove(H, buf, 4000, 600, H.seed)
+        if H.thorough:
+            queue_mass_remove(H, buf, 9000, 300, H.seed + 3)
         if H.thorough:
             queue_large(H, buf, 26000, H.seed + 1)
         plan = ((1, 7, 9, .12), (0.5, 7, 9, .2), (2, 7, 9, .25)) if not H.thorough else \
